@@ -337,10 +337,15 @@ func TestVerifC19(t *testing.T) {
 				sink, d, err, cerr := run(k, variant == 0, variant == 2)
 				c.R.Count("fault_runs", 1)
 				if sink.failed == 0 {
-					c.Violationf("write/harness/fault-not-reached", "call %d of %d not reached on the second run", k, n)
+					// the repeated program made fewer sink calls (compressed sizes depend on
+					// the random file identifier and IVs): this index decides nothing
+					c.R.Count("fault_not_reached", 1)
 					continue
 				}
-				kind := base.kinds[k-1]
+				kind := "W"
+				if k-1 < len(sink.kinds) {
+					kind = sink.kinds[k-1]
+				}
 				c.R.Seen("failed-call-kinds", kind+"/"+vname)
 				if errors.Is(err, c19Injected) || errors.Is(cerr, c19Injected) {
 					c.R.Count("io_errors_surfaced", 1)
